@@ -57,6 +57,11 @@ Proof.
   induction 1 as [|it lt [r [ok [-> _]]] _ [IH1 IH2]]; [split; constructor|].
   split; constructor; try exact I; assumption.
 Qed.
+Lemma o4_snap2_boring cl cl' lt : Forall (snap2 cl cl') lt -> Forall o4_nwok lt /\ Forall o4_ndel lt.
+Proof.
+  induction 1 as [|it lt [[r [ok [-> _]]]|[r [ok [-> _]]]] _ [IH1 IH2]]; [split; constructor| |];
+    (split; constructor; try exact I; assumption).
+Qed.
 
 (* ---- the justification of a Successful wait event ---------------------------------------- *)
 Definition o4_okobs (cl : cluster) (e : id) (o : sobs) : Prop :=
@@ -334,16 +339,7 @@ Section Ops.
   Qed.
 
   Lemma o4_c_kubectl_apply s l : r_cache (fst (kubectl_apply sc s l)) = r_cache s.
-  Proof.
-    unfold kubectl_apply. cbv zeta. destruct (ssa_mode sc).
-    - destruct (faulted sc _); [o4c|].
-      destruct (find_obj _ _); destruct (match o_dry (sc_opts sc) with DServer => true | _ => false end); o4c.
-    - pose proof (o4_c_get_obj s (l_id l)) as G. destruct (get_obj sc s (l_id l)) as [s1 g]. cbn [fst] in G.
-      destruct g; cbn [fst]; try exact G.
-      + destruct (is_dry _); cbn [fst]; [exact G|]. destruct (faulted sc _); o4c.
-      + destruct (negb (patch_needed c l)); cbn [fst]; [exact G|].
-        destruct (is_dry _); cbn [fst]; [exact G|]. destruct (faulted sc _); o4c.
-  Qed.
+  Proof. apply cache_kubectl_apply. Qed.
 
   Lemma o4_c_inv_apply s ids : r_cache (fst (inv_apply sc s ids)) = r_cache s.
   Proof.
@@ -417,7 +413,7 @@ Section Ops.
     exists a u gen lt,
       r_tbl s' = set_status Nat.eqb (r_tbl s) (mkRec i SApply a RPending u gen) /\
       a <> APending /\ r_cache s' = r_cache s /\
-      r_tr s' = IEv (EApply g i (ast_of a)) :: lt ++ r_tr s /\ Forall (snap_of (r_cl s')) lt /\
+      r_tr s' = IEv (EApply g i (ast_of a)) :: lt ++ r_tr s /\ Forall (snap2 (r_cl s) (r_cl s')) lt /\
       (a = ASucceeded -> gen = harness_gen /\ applied (r_cl s) (r_cl s') i u) /\
       (a <> ASucceeded -> r_cl s' = r_cl s).
   Proof.
@@ -430,9 +426,9 @@ Section Ops.
     pose proof (same4_policy_apply_filter sc s (p_id p)) as P. pose proof (o4_c_policy_apply_filter s (p_id p)) as PC.
     destruct (policy_apply_filter sc s (p_id p)) as [s1 f1]. cbn [fst] in P, PC. destruct P as [P1 [P2 [P3 P4]]].
     destruct (match f1 with FPass => _ | _ => _ end).
-    - pose proof (kubectl_apply_spec sc s1 l) as K. cbv zeta in K. pose proof (o4_c_kubectl_apply s1 l) as KC.
+    - pose proof (kubectl_apply_spec sc s1 l) as K. unfold ka_spec2 in K. pose proof (o4_c_kubectl_apply s1 l) as KC.
       destruct (kubectl_apply sc s1 l) as [s2 r]. cbn [fst snd] in K, KC.
-      destruct K as [K1 [K2 [lt [K3 [K4 K5]]]]].
+      destruct K as [K1 [K2 [lt [K3 [K4 K5]]]]]. rewrite P1 in K4.
       destruct r as [u|]; cbn [fst snd log_req emit ev rec_add set_tbl set_cl add_aband r_cl r_tbl r_aband r_tr r_cache].
       + exists ASucceeded, u, harness_gen, lt.
         split; [rewrite K1, P2; reflexivity|]. split; [discriminate|]. split; [congruence|].
@@ -467,7 +463,7 @@ Section Ops.
   Proof.
     intros [l [EL [EI Hi]]] [V G T1 T2a T2g].
     destruct (o4_apply_one_spec pl g s p l EL EI) as [a [u [gen [lt [ET [NA [EC [ETR [SF [SU NS]]]]]]]]]].
-    cbv zeta in *. destruct (o4_snap_boring _ _ SF) as [F1 F2].
+    cbv zeta in *. destruct (o4_snap2_boring _ _ _ SF) as [F1 F2].
     assert (TV : forall j, tv (apply_one sc pl g s p) j = if Nat.eqb (p_id p) j then Some (SApply, a, u) else tv s j)
       by (intros j; unfold tv; rewrite ET, tvl_set_status; reflexivity).
     assert (C : o4_Cl aids (r_cl s) (r_cl (apply_one sc pl g s p))).
